@@ -40,6 +40,9 @@ pub fn classify(case: &StepCase, j: &Judged, t: &Tag, stats: &mut Stats) {
 
 pub fn run(ctx: &Ctx) -> i32 {
     if let Some(v) = &ctx.replay {
+        if crate::checks::soup::is_soup_replay(v) {
+            return crate::checks::soup::replay(ctx, P, v);
+        }
         return replay_step(ctx, P, v);
     }
     let forms = logic_forms();
@@ -124,5 +127,8 @@ pub fn run(ctx: &Ctx) -> i32 {
     stats.exhaustive_subspaces.insert("form x source register x destination register".into(), forms.iter().map(|f| f.ssz().map(nregs).unwrap_or(1) as u64 * nregs(f.dsz()) as u64).sum());
     stats.exhaustive_subspaces.insert("form x CCR".into(), forms.len() as u64 * 256);
     let rule = "cases = AND/OR/XOR (B,W,L; immediate and register), NOT, EXTU and the one-bit SHAL/SHAR/SHLL/SHLR/ROTL/ROTR/ROTXL/ROTXR (B,W,L) with enumerated 8-bit operand triples, all 16-bit unary operands x carry-in, a 32-bit bit-pattern set, register pairs and CCR values crossed with proptest-generated register files / values; oracle = reference model post-state. Non-trivial = the result differs from the operand or a flag changes; distinct by (form, register fields, flags in, flags out, value class).";
+    stats.merge(crate::checks::soup::phase(ctx, P, crate::checks::soup::Flavor::Logic, ctx.tier.pick(300000, 6000000), 0x3510000, false));
+    let rule_soup = format!("{}{}", rule, crate::checks::soup::RULE);
+    let rule: &str = &rule_soup;
     finish(ctx, P, stats, rule, vec!["reference model transcribed from the H8/300H programming manual (DESIGN 1.3, Appendix A.3)".into()], Map::new())
 }
